@@ -540,6 +540,10 @@ def _parse_shape_params(region_data):
     params = [val for val in re.split(r'\s|\,', region_data.shape_params)
               if val]  # split values on space or comma
 
+    if shape in ('ellipse', 'box') and len(params) == 4:
+        # the angle is optional in DS9 and defaults to 0
+        params.append('0')
+
     nparams = len(params)
     n_annulus = 0
 
